@@ -52,6 +52,24 @@ func c17Gen(r *Rng, mode string, n int) c17Case {
 			f.Name = ""
 		}
 	}
+	// length / separator strategies for every string that feeds a derived or array-valued field
+	// (FullName, FileName, Display alternatives, colour key): 0, 1, around 1024, 4096, 65536 bytes;
+	// without separators, with separators, only separators, separators only far from the end,
+	// non-UTF-8 (direct mode)
+	if r.Chance(8) {
+		for i, k := 0, 1+r.Intn(3); i < k; i++ {
+			f := p.Function[r.Intn(len(p.Function))]
+			switch r.Intn(3) {
+			case 0:
+				f.Name = c17LenString(r, mode)
+			case 1:
+				f.Filename = c17LenString(r, mode)
+			default:
+				f.Name, f.Filename = c17LenString(r, mode), c17LenString(r, mode)
+			}
+			f.SystemName = f.Name
+		}
+	}
 	// recursion strategy: repeat a location of the stack (directly or mutually)
 	for _, s := range p.Sample {
 		if len(s.Location) > 0 && r.Chance(35) {
@@ -162,4 +180,80 @@ func c17Shapes() []c17Case {
 		out = append(out, c17Case{Mode: "web", Profile: canon, SampleIndex: 1, Gran: ""})
 	}
 	return out
+}
+
+var c17Lens = []int{0, 1, 2, 7, 255, 1023, 1024, 1025, 1026, 2048, 4096}
+var c17Seps = []string{".", "::", "/", "<", ">", "(", ")", ",", " ", "*", "&", "[", "]", "{", "}", "$", "#", ":", "-", "\\"}
+
+// c17LenString builds a name of a boundary length in one of several separator shapes.
+func c17LenString(r *Rng, mode string) string {
+	n := c17Lens[r.Intn(len(c17Lens))]
+	if r.Chance(2) {
+		n = 65536
+	} else if r.Chance(10) {
+		n += r.Intn(3) - 1
+		if n < 0 {
+			n = 0
+		}
+	}
+	b := make([]byte, 0, n+2)
+	fill := func(k int) {
+		for len(b) < k {
+			b = append(b, "abcxyzABC_019"[r.Intn(13)])
+		}
+	}
+	sep := func() string { return c17Seps[r.Intn(len(c17Seps))] }
+	shape := r.Intn(7)
+	if shape == 6 && mode != "direct" {
+		shape = 0
+	}
+	switch shape {
+	case 0: // no separator at all
+		fill(n)
+	case 1: // a handful of separators anywhere (at most 12: each one adds a Display alternative)
+		fill(n)
+		for i, k := 0, 1+r.Intn(12); i < k && n > 0; i++ {
+			sp := sep()
+			at := r.Intn(n)
+			copy(b[at:], sp)
+		}
+	case 2: // only separators (every one adds a Display alternative: capped at 1026 bytes)
+		if n > 1026 {
+			n = 1026
+		}
+		for len(b) < n {
+			b = append(b, sep()...)
+		}
+	case 3: // separators only in the first bytes: the tail after the last one is long
+		fill(n)
+		if n > 0 {
+			copy(b[r.Intn(1+n/16):], sep())
+		}
+	case 4: // a separator right at a 1023/1024/1025 distance from the end
+		fill(n)
+		d := 1023 + r.Intn(3)
+		if n > d {
+			copy(b[n-d-1:], []string{".", "::", "/"}[r.Intn(3)])
+		}
+	case 5: // separator as first or last byte(s)
+		fill(n)
+		if n > 0 {
+			if r.Bool() {
+				copy(b, sep())
+			} else {
+				sp := sep()
+				if len(sp) <= n {
+					copy(b[n-len(sp):], sp)
+				}
+			}
+		}
+	case 6: // non-UTF-8 and control bytes
+		for len(b) < n {
+			b = append(b, byte(r.Intn(256)))
+		}
+	}
+	if len(b) > n {
+		b = b[:n]
+	}
+	return string(b)
 }
